@@ -231,6 +231,7 @@ func runC05(t *testing.T, c *choice.Stream, r *Result, opt RunOpt) {
 	sizesRaw := uint32(c.Pick("sizes.raw", 1<<27+10, 1<<30, 0xffffffff))
 	sizesData := uint32(c.Pick("sizes.data", 1<<27+1, 1<<30, 0xffffffff))
 	sizesInner := c.Bool("sizes.inner", 1, 3)
+	sizesNone := c.Pick("sizes.none", 0, 0, 1, 8, 4096, -1, -8, -64)
 	sizesInnerFCS := uint64(c.Pick("sizes.inner.fcs", 1<<28, 1<<30, 3<<30))
 	cutDraw := c.Draw("cut.off", 1<<30)
 	segSeed := uint64(c.Draw("src.seg", 1<<31-1))
@@ -287,6 +288,14 @@ func runC05(t *testing.T, c *choice.Stream, r *Result, opt RunOpt) {
 				hdr[16] = 0x90
 				binary.LittleEndian.PutUint32(hdr[17:], uint32(9+len(body)))
 				binary.LittleEndian.PutUint32(hdr[21:], 16)
+			}
+			if sizesNone != 0 && !sizesInner {
+				// method None, sizes within every limit, valid checksum - but the data
+				// size does not agree with the length of the payload that follows
+				body = c.Bytes("sizes.none.body", 64)
+				hdr[16] = 0x02
+				binary.LittleEndian.PutUint32(hdr[17:], uint32(9+len(body)))
+				binary.LittleEndian.PutUint32(hdr[21:], uint32(len(body)+sizesNone))
 			}
 			h := city.CH128(append(append([]byte{}, hdr[16:]...), body...))
 			binary.LittleEndian.PutUint64(hdr[0:], h.Low)
